@@ -105,7 +105,7 @@ def coverage_of(prop, results, spec, extra=None):
 
 def replay_info(v):
     w = v.get("workload", {})
-    return dict(mode="hist", flavour="asan", args=w.get("args", []), note="re-run with: ./check <id> --replay <this file>")
+    return dict(mode=w.get("mode", "hist"), flavour="asan", args=w.get("args", []), note="re-run with: ./check <id> --replay <this file>")
 
 
 def run(prop, tier):
@@ -115,6 +115,17 @@ def run(prop, tier):
     wd = C.workdir(prop, tier)
     try:
         results = run_workloads(prop, tier, exe, wd, spec)
+        if prop == "C01":
+            # the save/load round trip is also driven through every residue of the parameter-section length modulo 512
+            out = os.path.join(wd, "residue")
+            nres = 520 if tier == "quick" else 1560
+            C.run_driver(exe, "residue", nres, out, args=["--variant", "2"])
+            RR = C.parse_out(out)
+            RR.workload = dict(profile="residue", wild=False, args=["--variant", "2"], first=0, count=nres, mode="residue")
+            for v in RR.viol:
+                v["workload"] = RR.workload
+            RR.cnt["c01_roundtrips"] += sum(1 for c, l in RR.lines.get("RES", []) if " ok" in l)
+            results.append(RR)
         viols = [v for R in results for v in R.viol]
         cov, cnt = coverage_of(prop, results, spec)
         inconclusive = None
